@@ -82,6 +82,11 @@ type WAL struct {
 	// waits on the close before acquiring the lock and continuing.
 	triggerRotate chan uint64
 	awaitRotate   chan struct{}
+
+	// stableMu stops Close from closing metaDB underneath StableStore calls that
+	// are in flight (they don't take writeMu). Get and Set hold it shared, Close
+	// takes it exclusively around closing metaDB.
+	stableMu sync.RWMutex
 }
 
 type walOpt func(*WAL)
@@ -313,9 +318,22 @@ func (w *WAL) mutateStateLocked(tx stateTxn) error {
 // data within it will be performed to free old files that may have been
 // truncated concurrently.
 func (w *WAL) acquireState() (*state, func()) {
-	s := w.loadState()
-	vhook("acquireState.loaded", w)
-	return s, s.acquire()
+	for {
+		s := w.loadState()
+		vhook("acquireState.loaded", w)
+		release := s.acquire()
+		// Loading the state and taking a reference on it are not atomic. In between
+		// a writer (or Close) may have replaced s and dropped the last reference to
+		// it, which runs its finalizer and closes files we are about to read. If s
+		// is still the current state now that we hold a reference we are safe: the
+		// writer that eventually replaces it holds its own reference until after
+		// the swap so the finalizer can't run before we release. Otherwise try
+		// again with the new state.
+		if w.loadState() == s {
+			return s, release
+		}
+		release()
+	}
 }
 
 // newSegment creates a types.SegmentInfo with the passed ID and baseIndex, filling in
@@ -340,6 +358,10 @@ func (w *WAL) FirstIndex() (uint64, error) {
 	vhook("FirstIndex.checked", w)
 	s, release := w.acquireState()
 	defer release()
+	if s.isClosed() {
+		// Close raced with us after the check above.
+		return 0, ErrClosed
+	}
 	return s.firstIndex(), nil
 }
 
@@ -351,6 +373,10 @@ func (w *WAL) LastIndex() (uint64, error) {
 	vhook("LastIndex.checked", w)
 	s, release := w.acquireState()
 	defer release()
+	if s.isClosed() {
+		// Close raced with us after the check above.
+		return 0, ErrClosed
+	}
 	return s.lastIndex(), nil
 }
 
@@ -363,6 +389,10 @@ func (w *WAL) GetLog(index uint64, log *raft.Log) error {
 	s, release := w.acquireState()
 	defer release()
 	vhook("GetLog.acquired", w)
+	if s.isClosed() {
+		// Close raced with us after the check above.
+		return ErrClosed
+	}
 	w.metrics.IncrementCounter("log_entries_read", 1)
 
 	raw, err := s.getLog(index)
@@ -398,6 +428,12 @@ func (w *WAL) StoreLogs(logs []*raft.Log) error {
 	// write lock.
 	w.awaitRotationLocked()
 	vhook("StoreLogs.locked", w)
+
+	// Close sets the closed flag before it takes writeMu so now we hold the lock,
+	// if we are not closed yet the state can't be torn down until we are done.
+	if err := w.checkClosed(); err != nil {
+		return err
+	}
 
 	s, release := w.acquireState()
 	defer release()
@@ -509,6 +545,12 @@ func (w *WAL) DeleteRange(min uint64, max uint64) error {
 	w.awaitRotationLocked()
 	vhook("DeleteRange.locked", w)
 
+	// Close sets the closed flag before it takes writeMu so now we hold the lock,
+	// if we are not closed yet the state can't be torn down until we are done.
+	if err := w.checkClosed(); err != nil {
+		return err
+	}
+
 	s, release := w.acquireState()
 	defer release()
 
@@ -559,6 +601,13 @@ func (w *WAL) Set(key []byte, val []byte) error {
 		return err
 	}
 	vhook("Set.checked", w)
+	w.stableMu.RLock()
+	defer w.stableMu.RUnlock()
+	// Close sets the closed flag before it takes stableMu so if we are not closed
+	// now metaDB stays open until we are done.
+	if err := w.checkClosed(); err != nil {
+		return err
+	}
 	w.metrics.IncrementCounter("stable_sets", 1)
 	return w.metaDB.SetStable(key, val)
 }
@@ -569,6 +618,13 @@ func (w *WAL) Get(key []byte) ([]byte, error) {
 		return nil, err
 	}
 	vhook("Get.checked", w)
+	w.stableMu.RLock()
+	defer w.stableMu.RUnlock()
+	// Close sets the closed flag before it takes stableMu so if we are not closed
+	// now metaDB stays open until we are done.
+	if err := w.checkClosed(); err != nil {
+		return nil, err
+	}
 	w.metrics.IncrementCounter("stable_gets", 1)
 	return w.metaDB.GetStable(key)
 }
@@ -961,7 +1017,11 @@ func (w *WAL) Close() error {
 	vhook("Close.locked", w)
 
 	// It doesn't matter if there is a rotation scheduled because runRotate will
-	// exist when it sees we are closed anyway.
+	// exit when it sees we are closed anyway. But it won't wake up a writer that
+	// is waiting for that rotation so we have to, it will see we are closed.
+	if w.awaitRotate != nil {
+		close(w.awaitRotate)
+	}
 	w.awaitRotate = nil
 	// Awake and terminate the runRotate
 	close(w.triggerRotate)
@@ -991,6 +1051,9 @@ func (w *WAL) Close() error {
 		w.closeSegments(toClose)
 	})
 
+	// Wait for in-flight StableStore calls before closing metaDB under them.
+	w.stableMu.Lock()
+	defer w.stableMu.Unlock()
 	return w.metaDB.Close()
 }
 
